@@ -114,6 +114,8 @@ def main():
                            'tail': rc.stdout.strip().splitlines()[-1:]}
       # evidence/replays of a mutant run go to a scratch dir, never to /verif
       shutil.rmtree(f'/tmp/seedout_{name}', ignore_errors=True)
+      if (os.environ.get('SEED_STOP_FIRST') and rc.returncode == 1 and viol):
+        break   # own check first, neighbours only while undetected
     meta['detected_by'] = [c for c, v in meta['checks'].items()
                            if v['exit'] == 1 and v['violations'] > 0]
   finally:
@@ -122,8 +124,8 @@ def main():
   if meta.get('confirmed'):
     dst = os.path.join(VERIF, 'seeded', name)
     os.makedirs(dst, exist_ok=True)
-    for f in ('patch.diff', 'demo.py', 'notes.md'):
-      if os.path.exists(os.path.join(src, f)):
+    for f in sorted(os.listdir(src)):     # patch.diff, demo.py, notes.md, helpers
+      if os.path.isfile(os.path.join(src, f)) and not f.endswith('.pyc'):
         shutil.copy(os.path.join(src, f), os.path.join(dst, f))
     notes = os.path.join(src, 'notes.md')
     meta['needs_to_manifest'] = open(notes).read()[:1500] if os.path.exists(notes) else ''
